@@ -689,6 +689,7 @@ type jobCase struct {
 	Expect    interface{} `json:"expect,omitempty"`  // logical rows of a foreign file
 	KeepFile  string      `json:"keepfile,omitempty"`
 	Light     bool        `json:"light,omitempty"` // omit page level/value detail from events
+	Sched     interface{} `json:"sched,omitempty"` // instances + schedule (C13), see sched.go
 }
 
 type job struct {
@@ -1336,6 +1337,10 @@ func runCase(c jobCase) {
 	emit(event{"ev": "Reset", "case": c.ID, "schema": schemaRoot, "cols": cols, "max": c.Page, "codec": c.Codec, "codecn": codecNum[c.Codec], "poff": c.Poff})
 	if c.Foreign != nil {
 		runForeign(c)
+		return
+	}
+	if c.Sched != nil {
+		runSched(c)
 		return
 	}
 	if c.SinkFault != 0 {
